@@ -67,6 +67,36 @@ def fallback_order(chk, fn, rule, fk, c1_bb, c2_bb, what):
                    fn.where(c2_bb), fn.where(c1_bb), sorted(labs) or "none"))
 
 
+def only_after_miss(fn, a_bb, b_bb):
+    """True when block b_bb cannot be reached from the hit (true/Some/Ok) edge of any test of the result of the call in a_bb,
+    and that result is tested at all on the way (no dominance between the two calls is required)."""
+    tested = False
+    for s, kind, ap, info in switch_tests(fn):
+        ap, flip = peel_not(ap)
+        steps = 0
+        while steps < 4 and ap[0][0] == "call" and ap[0][3] != a_bb and ap[0][2] and not ap[1]:
+            n = ap[0][1]
+            if n.endswith(("Option::<T>::is_some", "Result::<T, E>::is_ok", "Try>::branch")):
+                ap = ap[0][2][0]
+            elif n.endswith(("Option::<T>::is_none", "Result::<T, E>::is_err")):
+                ap = ap[0][2][0]
+                flip = not flip
+            else:
+                break
+            steps += 1
+        if _root_call_bb(ap) != a_bb or ap[1]:
+            continue
+        for lab, tgt, name in edge_names(fn, s, kind, info):
+            if name not in POS and name not in NEG:
+                continue
+            pos = (name in POS) != flip
+            if pos:
+                tested = True
+                if b_bb in fn.reachable(tgt):
+                    return False
+    return tested
+
+
 def returned_unchanged(chk, fn, rule, fk, c1_bb, what):
     """On the success edge, c1's hit is what the function returns."""
     ok = False
